@@ -15,6 +15,9 @@ RULES = [
     ("r8", "66666666-6666-4666-8666-666666666666", "Title F", {"sel": {"EventID": 4688}, "condition": "sel"}, {"product": "windows", "service": "security"}),
     ("r9", "77777777-7777-4777-8777-777777777777", "Title G", {"sel": {"f": "g"}, "condition": ["1 of nomatch2*", "sel", "all of nope*"]}),
     # modifier chains the modifier validators look at (allowed repetitions, forbidden combinations, every list-valued attribute of an item)
+    # values built by a modifier (they carry no original text): one with a control character, one without - each judged on its own
+    ("r11", "99999999-9999-4999-8999-999999999999", "Title I", {"sel": {"p|contains": "C:\temp", "q|startswith": "ok"}, "condition": "sel"}),
+    ("r12", "aaaaaaaa-aaaa-4aaa-8aaa-aaaaaaaaaaaa", "Title J", {"sel": {"p|contains": "clean", "q|endswith": "x\ny"}, "condition": "sel"}),
     ("r10", "88888888-8888-4888-8888-888888888888", "Title H", {"sel": {"a|base64|contains": "x", "b|base64|base64": "y", "c|base64offset|contains": "z", "d|contains|all": ["p", "q"], "e|re|i": "k.*", "g|windash|contains": "-x",
                                                                    "h|all": "single", "i|contains|contains": "dup", "j|cased|startswith": "Ab"}, "condition": "sel"}),
 ]
@@ -64,8 +67,9 @@ class C19Bounded(Bounded):
                 pass
             except Exception:
                 names.append(n)
-        perms = [tuple(range(len(RULES))), tuple(reversed(range(len(RULES))))]      # random orders (the number of all orders grows with the factorial of the number of rules)
-        while len(perms) < (8 if tier == "quick" else 40):
+        perms = [tuple(range(len(RULES))), tuple(reversed(range(len(RULES))))]
+        perms += [(i,) + tuple(j for j in range(len(RULES)) if j != i) for i in range(len(RULES))][-4:]          # each of the last four rules (the ones with modifier-built values) first      # random orders (the number of all orders grows with the factorial of the number of rules)
+        while len(perms) < (10 if tier == "quick" else 40):
             pm = tuple(rnd.sample(range(len(RULES)), len(RULES)))
             if pm not in perms:
                 perms.append(pm)
